@@ -127,6 +127,10 @@ def r16_contract(base, chk):
         import random
         rng = random.Random(seed)
         ks = [0, 1, 8, 15, 16, 2**252, L - 1, L - 2, 0x8888888888888888888888888888888888888888888888888888888888888888 % L, 0x7777777777777777777777777777777777777777777777777777777777777777 % L] + [rng.randrange(L) for _ in range(40)]
+        for m in models:
+            if "b" in m:
+                ks.append(sum((int(x) & 255) << (8 * i) for i, x in enumerate(m["b"])) % L)
+        ks += ptreplay.structured_scalars()
         res = native.run_ops("", [{"op": "S.signedRadix16", "args": ["s"], "init": {"s": ptreplay.scalar_words(x)}} for x in ks])
         for x, r in zip(ks, res):
             if "panic" in r:
